@@ -7,7 +7,7 @@
    mathematical meaning: exact integers, usual precedence, left associativity,
    division and remainder truncating toward zero, any run of unary signs. *)
 From GM Require Import Base Text Token Lexer Scanner ExprSpec ExprEval Parser Compile Sim
-     C07Parser C07Signs C07Model C07Proof C07Inverse.
+     C07Parser C07Signs C07Model C07Proof C07Inverse Prog Meaning AsmSpec C03Compile C03Parse C03EquCompile.
 Open Scope Z_scope.
 
 (* every expression tree (any nesting, any run of stacked signs, redundant parentheses), written
@@ -67,6 +67,41 @@ Theorem C07_assert :
                    evaluate_expression e = EOk v /\ v <> 0.
 Proof. exact assert_passes. Qed.
 Print Assumptions C07_assert.
+
+(* ... and on whole programs (C03EquCompile): a program of labelled instructions, EQU definitions (any order, any depth),
+   ORG and ;assert lines - each a comment `;assert<text>` whose text the lexer turns into the tokens of a condition - is
+   REFUSED by the compiler when one of its conditions has the reference value 0 (the first such line, those before it
+   being non-zero: C03EquCompile.first_zero, which implies Meaning.assertions = MReject), and - props/C03.v,
+   C03_programs_with_equ_partial - ACCEPTED with exactly the code it denotes when every condition has a value other than
+   zero.  The conditions are read the reference's way: names substituted textually pass by pass with the definitions as
+   written, labels at line 0, then integer arithmetic. *)
+Theorem C07_zero_condition_refused :
+  forall spell cfg org its es lines meta rkN,
+    validate cfg = true -> renders_doc2 spell org its es ->
+    spell_ok spell (flat_map il_labels (instrs its) ++ map fst (equs its)) ->
+    ranked spell (equs its) rkN ->
+    essential lines = elines 0 es ->
+    Z.of_nat (length (instrs its)) < Z.of_N (c_size cfg) ->
+    first_zero (mconf_of cfg) (equs its) (lab_pairs 0 (instrs its)) its = true ->
+    compile cfg lines meta = CErr.
+Proof. exact compile_program2_refused. Qed.
+Print Assumptions C07_zero_condition_refused.
+
+Theorem C07_zero_condition_is_reject :
+  forall cf ev ls its, first_zero cf ev ls its = true -> assertions cf ev ls its = MReject.
+Proof. exact first_zero_rejects. Qed.
+Print Assumptions C07_zero_condition_is_reject.
+
+Theorem C07_nonzero_conditions_accepted :
+  forall spell cfg org its es lines meta nm au code start rkN,
+    validate cfg = true -> renders_doc2 spell org its es ->
+    spell_ok spell (flat_map il_labels (instrs its) ++ map fst (equs its)) ->
+    ranked spell (equs its) rkN ->
+    essential lines = elines 0 es ->
+    meaning (mconf_of cfg) (mkProg its org None nm au []) = MOk code start ->
+    compile cfg lines meta = COk code start meta.
+Proof. exact compile_program2. Qed.
+Print Assumptions C07_nonzero_conditions_accepted.
 
 (* not only printed trees: EVERY token list the reference evaluator accepts (non-negative number tokens, operators,
    parentheses, sign runs of any length anywhere) is evaluated by expr.go's evaluator to the reference's value -
